@@ -485,7 +485,7 @@ func c16BGVRefresh(c *Ctx, set c16BGVSet, n, lin, lout int, sigma float64, fn *c
 	// the (transformed) masked plaintext as the code re-embeds it (stored words)
 	fTok := Vec(masked)
 	if fn != nil {
-		fTok = Vec(fn.apply(set, masked, out.Scale))
+		fTok = Vec(fn.apply(set, masked, ct.Scale)) // (before fixes/C16-3 the code used the output's scale)
 	}
 	res := Try(func() string {
 		if err := protos[0].Transform(in, tf, crp, agg, out); err != nil {
